@@ -225,6 +225,18 @@ func RunFlow(w *World, spec *RunSpec, tune func(f *Flow)) *Flow {
 		first = 2
 	}
 	for g := first; g <= f.O.Generations; g++ {
+		if f.HoldUntilLastGen {
+			// final acknowledgements are withheld in every incarnation
+			// but the last: transfers stay open across several stops
+			// while newer ones overtake them
+			w.Broker.Held = nil
+			w.Broker.Hold = nil
+			if g < f.O.Generations {
+				w.Broker.Hold = func(c *Conn, p Packet) bool {
+					return p.Type == PUBACK || p.Type == PUBCOMP
+				}
+			}
+		}
 		if g > 1 {
 			if f.BetweenGens != nil {
 				f.BetweenGens(f, g)
@@ -285,6 +297,7 @@ func (f *Flow) runGeneration(adopt bool) {
 		}
 		s.Env = f.env
 		w.Broker.SkipResend = nil
+		w.Broker.Opts.ReuseIDs = o.ReuseIDs && !o.Clean
 		if o.LazyResend && o.Generations <= 1 {
 			// what the application was handed and the client has not
 			// acknowledged on the wire is the client's to acknowledge
@@ -583,6 +596,10 @@ func init() {
 			if o.Budget > 3 {
 				o.Budget = 3
 			}
+			if o.Generations > 2 && f.W.Tape.Flip("hold-until-last", 350) {
+				f.HoldUntilLastGen = true
+				o.StopWhenPublished = false
+			}
 		}
 	}
 	register("C02", Family{Name: "stops", Weight: 3, Sweep: true, Run: flowFamily(restartTune(-1), "resumed_after_restart")},
@@ -624,7 +641,21 @@ func init() {
 		f.O.Publishers = f.W.Tape.Draw("npub4", 2)
 		f.O.BreakW = 2 + f.W.Tape.Draw("breakw4", 3)
 		f.O.Budget += 3
-	}, "q2_retransmission_seen", "q2_duplicate_completed")})
+		f.O.ReuseIDs = f.W.Tape.Flip("reuse4", 500)
+		if f.O.ReuseIDs {
+			f.O.Clean = false
+			f.O.InWindow = 1 + f.W.Tape.Draw("inwindow4", 3)
+			f.O.Inbound += 3
+			if f.W.Tape.Flip("reuse4-disk", 500) {
+				// storage errors late in the cycle (marker removal):
+				// keep the fault budget from draining on the network
+				f.O.Disk.ErrBefore = 150
+				f.O.Net.DialFail, f.O.Net.DialHang = 0, 0
+				f.O.BreakW, f.O.PartW = 1, 0
+				f.O.Budget = 6 + f.W.Tape.Draw("reuse4-budget", 6)
+			}
+		}
+	}, "q2_retransmission_seen", "q2_duplicate_completed", "identifier_reused")})
 	register("C06", Family{Name: "fragments", Weight: 1, Run: flowFamily(func(f *Flow) {
 		o := &f.O
 		f.StrictInbound = true
@@ -670,6 +701,10 @@ func init() {
 		f.O.PerReq = 3
 		if f.O.ReadBuf == 128*1024 {
 			f.O.ReadBuf = 256
+		}
+		f.O.ReuseIDs = f.W.Tape.Flip("reuse7", 400)
+		if f.O.ReuseIDs {
+			f.O.InWindow = 1 + f.W.Tape.Draw("inwindow7", 3)
 		}
 		f.O.LazyResend = f.W.Tape.Flip("lazyresend7", 500)
 		if f.O.LazyResend {
@@ -938,6 +973,20 @@ func init() {
 		o.PerPub = 1 + f.W.Tape.Draw("perpub2w", 5)
 		o.Budget = 2
 	}, "pending_range_straddles_wrap", "resumed_after_restart")})
+	register("C05", Family{Name: "wrap", Weight: 1, Run: flowFamily(func(f *Flow) {
+		// retransmission order across the identifier wrap-around after a
+		// restart, with new publishes queued behind the resumed ones
+		o := &f.O
+		o.Constructed = true
+		o.Generations = 2 + f.W.Tape.Draw("gens5w", 2)
+		o.FaultFreeAfterStop = true
+		o.StopW = 1
+		o.Clean = false
+		o.ALOMax, o.EOMax = 64, 64
+		o.Publishers = 1 + f.W.Tape.Draw("npub5w", 2)
+		o.PerPub = 2 + f.W.Tape.Draw("perpub5w", 5)
+		o.Budget = 2
+	}, "pending_range_straddles_wrap", "resend_carried_dup")})
 	register("C18", Family{Name: "connects", Weight: 1, Run: flowFamily(func(f *Flow) {
 		f.O.Net.DialFail = 300
 		f.O.Net.DialHang = 100
